@@ -22,7 +22,37 @@ def W(kinds, d, fam=False, wrap=False, pad=False):
             "PadOps": "TRUE" if pad else "FALSE"}
 
 
+def tla_set(xs):
+    return "{" + ", ".join(str(x) for x in xs) + "}"
+
+
+def Bts(domain, **kw):
+    """constants of MC_Bytes: every domain's parameters need a value; only those of `domain` matter"""
+    c = {"Domain": f'"{domain}"',
+         "Versions": tla_set([2]), "PBits": tla_set([0, 1]), "Counts": tla_set([0, 1]), "Types": tla_set([200, 201]),
+         "LenFields": tla_set([0, 1]), "Lens": tla_set([4, 8]), "LastBytes": tla_set([4]),
+         "SdesAlpha": tla_set([0, 1]), "SdesLens": tla_set([0, 4]), "SdesPads": tla_set([0]),
+         "FciAlpha": tla_set([0, 1]), "FciWords": tla_set([0, 1]), "Formats": tla_set([1])}
+    for k, v in kw.items():
+        c[k] = tla_set(v)
+    return c
+
+
+FRAME_Q = Bts("frame", Versions=[1, 2], PBits=[0, 1], Counts=[0, 1, 31], Types=[77, 200, 201, 202, 203, 204, 205, 206, 242],
+              LenFields=[0, 1, 2, 6, 7, 256, 16384, 16385, 32769, 65535], Lens=[0, 3, 4, 7, 8, 12, 13, 28, 32], LastBytes=[0, 4, 255])
+FRAME_T = Bts("frame", Versions=[0, 1, 2, 3], PBits=[0, 1], Counts=[0, 1, 2, 31], Types=[0, 77, 192, 199, 200, 201, 202, 203, 204, 205, 206, 207, 242, 255],
+              LenFields=[0, 1, 2, 3, 4, 5, 6, 7, 8, 12, 13, 256, 257, 16384, 16385, 16390, 32768, 32769, 49153, 65535], Lens=[0, 1, 2, 3, 4, 5, 7, 8, 9, 11, 12, 13, 16, 27, 28, 29, 32, 33, 52, 53, 56, 57],
+              LastBytes=[0, 1, 4, 8, 255])
+SDES_Q = Bts("sdes", SdesAlpha=[0, 1, 2, 8], SdesLens=[0, 4, 8], SdesPads=[0])
+SDES_T = Bts("sdes", SdesAlpha=[0, 1, 2, 3, 8], SdesLens=[0, 4, 8], SdesPads=[0, 4])
+SDES_T2 = Bts("sdes", SdesAlpha=[0, 1, 8], SdesLens=[12], SdesPads=[0, 8])
+FCI_Q = Bts("fci", FciAlpha=[0, 1, 255], FciWords=[0, 1], Formats=[0, 1, 2, 3, 4, 5, 15, 31])
+FCI_T = Bts("fci", FciAlpha=[0, 1, 128, 255], FciWords=[0, 1, 2], Formats=list(range(32)))
+BYTES_INV = ["MustImpliesCan", "MandatedIsReject", "NoContradiction", "TypedImpliesGeneric", "ShortIsTruncated", "PadTransparent",
+             "SdesMustReencodes", "FciLaws", "Emit"]
+
 MODELS = {
+    "MC_Bytes": {"inv": BYTES_INV, "prop": [], "props": ["C01", "C08", "C09", "C10", "C12", "C13", "C15", "C18", "C19"]},
     "MC_Writer": {
         "inv": ["SizeMult4", "RoundTrip", "PadLaw", "Implementable", "NotPermissive", "Laws", "RejectedUnrepresentable", "Emit"],
         "prop": [],
@@ -39,7 +69,16 @@ MODELS = {
 }
 
 # property -> list of (model, {tier: constants}, {tier: max behaviours replayed (seeded sample); absent = all})
+FRAME_PLAN = ("MC_Bytes", {"quick": FRAME_Q, "thorough": FRAME_T}, {"quick": 6000, "thorough": 150000})
 PLAN = {
+    "C01": [FRAME_PLAN, ("MC_Bytes", {"quick": SDES_Q, "thorough": SDES_T}, {"quick": 6000, "thorough": 100000}),
+            ("MC_Bytes", {"quick": FCI_Q, "thorough": FCI_T}, {"quick": 3000, "thorough": 100000})],
+    "C08": [FRAME_PLAN],
+    "C09": [FRAME_PLAN, ("MC_Writer", {"quick": W('{"sr", "rr", "bye", "app", "tfb", "pfb"}', 2), "thorough": W('{"sr", "rr", "bye", "app", "tfb", "pfb"}', 3, fam=True)},
+                         {"quick": 3000, "thorough": 60000})],
+    "C12": [FRAME_PLAN],
+    "C18": [FRAME_PLAN, ("MC_Bytes", {"quick": SDES_Q, "thorough": SDES_T}, {"quick": 5000, "thorough": 100000})],
+    "C10": [("MC_Bytes", {"quick": SDES_Q, "thorough": SDES_T}, {}), ("MC_Bytes", {"thorough": SDES_T2}, {})],
     "C02": [("MC_Writer", {"quick": W('{"sr", "rr"}', 2), "thorough": W('{"sr", "rr"}', 3, wrap=True)}, {})],
     "C03": [("MC_Writer", {"quick": W('{"sdes"}', 2, fam=True), "thorough": W('{"sdes"}', 3, fam=True, wrap=True)}, {})],
     "C04": [("MC_Writer", {"quick": W('{"bye", "app"}', 2), "thorough": W('{"bye", "app"}', 3, wrap=True)}, {})],
@@ -51,9 +90,9 @@ PLAN = {
     "C14": [("MC_Writer", {"quick": W('{"compound"}', 3, wrap=True), "thorough": W('{"compound"}', 4, wrap=True)}, {})],
     "C16": [("MC_Writer", {"quick": W(ALL_KINDS, 2), "thorough": W(ALL_KINDS, 3, fam=True)}, {"quick": 4000, "thorough": 60000})],
     "C17": [("MC_Writer", {"quick": W(ALL_KINDS, 2, wrap=True), "thorough": W(ALL_KINDS, 3, fam=True, wrap=True)}, {"quick": 4000, "thorough": 60000})],
-    "C19": [("MC_Writer", {"quick": W('{"unk", "custom"}', 3, wrap=True), "thorough": W('{"unk", "custom"}', 4, wrap=True)}, {})],
+    "C19": [FRAME_PLAN, ("MC_Writer", {"quick": W('{"unk", "custom"}', 3, wrap=True), "thorough": W('{"unk", "custom"}', 4, wrap=True)}, {})],
     "C20": [("MC_Writer", {"quick": W(ALL_KINDS, 2, fam=True, wrap=True), "thorough": W(ALL_KINDS, 3, fam=True, wrap=True)}, {"quick": 5000, "thorough": 80000})],
-    "C15": [("MC_Nack", {"quick": {"MaxWords": 1, "MaxSecond": 1}, "thorough": {"MaxWords": 2, "MaxSecond": 1}}, {"quick": None, "thorough": 20000})],
+    "C15": [("MC_Bytes", {"quick": FCI_Q, "thorough": FCI_T}, {"quick": 8000, "thorough": 200000}), ("MC_Nack", {"quick": {"MaxWords": 1, "MaxSecond": 1}, "thorough": {"MaxWords": 2, "MaxSecond": 1}}, {"quick": None, "thorough": 20000})],
     "C11": [("MC_Compound", {"quick": {"MaxTiles": 2, "Extra": 3}, "thorough": {"MaxTiles": 3, "Extra": 3}}, {})],
 }
 
@@ -128,6 +167,8 @@ def generate(prop, tier, seed, work, jobs):
     all_sessions = []
     stats = {"runs": [], "states": 0, "transitions": 0, "behaviours": 0, "exhaustive": True}
     for (model, consts, sample) in plan:
+        if tier not in consts:
+            continue
         sessions, st = run_model(model, consts[tier], MODELS[model].get("props", [prop]), work, workers=min(jobs, 8), timeout=3000)
         for i, s in enumerate(sessions):
             if s and s[0].get("op") == "reset":
